@@ -270,3 +270,11 @@ MUTANTS += [
 MUTANTS += [
     ("c08_unsigned_speed_negated_first", "C08", "utils.py", "    u = -(u_rot * np.sin(wind_dir))\n", "    u = -u_rot * np.sin(wind_dir)\n"),
 ]
+
+MUTANTS += [
+    # ---- a NaN in one cell (comparisons of the form "error > tolerance" are blind to NaN: the finiteness monitor of the call path sees it)
+    ("c06_nan_in_one_cell_when_three_levels", "C06", "solver.py", "    result = (grid, np.squeeze(conc), np.squeeze(flx))\n",
+     "    if nlvls == 3:\n        conc[-1, 0, 0] = np.nan\n    result = (grid, np.squeeze(conc), np.squeeze(flx))\n"),
+    ("c04_nan_flux_for_tiny_sources", "C04", "solver.py", "    result = (grid, np.squeeze(conc), np.squeeze(flx))\n",
+     "    if (not footprint) and 0 < np.max(np.abs(q0)) < 1e-9:\n        flx = flx / 0.0 * 0.0\n    result = (grid, np.squeeze(conc), np.squeeze(flx))\n"),
+]
